@@ -15,6 +15,7 @@ cp "$HERE/seeds/$TARGET/"* "$WORK/" 2>/dev/null
 : > "$WORK/empty"
 [ "$SEED" = 0 ] && SEED=1
 LOG="$WORK.log"
+export OPWV_TMP_DIR="/dev/shm/opwv-fuzz-$$"; mkdir -p "$OPWV_TMP_DIR" 2>/dev/null || { export OPWV_TMP_DIR="$WORK-tmp"; mkdir -p "$OPWV_TMP_DIR"; }
 JOBS=$(( $(nproc) / 2 )); [ $JOBS -lt 1 ] && JOBS=1
 BEFORE="$(ls -1 "$ART" 2>/dev/null | sort)"
 cargo +nightly fuzz run -O -s none --fuzz-dir . "$TARGET" "$WORK" -- -max_total_time="$SECS" -seed="$SEED" -len_control=0 -max_len=8192 -print_final_stats=1 -artifact_prefix="$ART" -fork="$JOBS" -ignore_crashes=0 >"$LOG" 2>&1
@@ -30,6 +31,7 @@ if [ -n "$NEW" ]; then CRASH="$ART$NEW"; fi
 if ! grep -aq "Done\|DONE\|stat::" "$LOG" && [ -z "$CRASH" ] && [ "${EXECS:-0}" = 0 ]; then
   echo "fuzz infrastructure problem, see $LOG"; tail -5 "$LOG"
   python3 -c "import json,sys; json.dump({'target':'$TARGET','error':'libFuzzer did not run','log':'$LOG'}, open('$OUT','w'))"
+  rm -rf "$OPWV_TMP_DIR"
   exit 2
 fi
 python3 - "$OUT" "$TARGET" "$SECS" "$SEED" "${EXECS:-0}" "${COV:-0}" "$CORPUS" "$CRASH" "$JOBS" <<'PY'
@@ -38,6 +40,6 @@ out,target,secs,seed,execs,cov,corpus,crash,jobs=sys.argv[1:10]
 json.dump({"engine":"cargo-fuzz / libFuzzer (-O, no sanitizer, fork mode)","target":target,"max_total_time_s":int(secs),"seed":int(seed),"fork_jobs":int(jobs),
            "executions":int(execs or 0),"coverage_edges":int(cov or 0),"corpus_files_at_end":int(corpus),"crash_artifact":crash or None}, open(out,"w"))
 PY
-rm -rf "$WORK" "$LOG"
+rm -rf "$WORK" "$LOG" "$OPWV_TMP_DIR"
 [ -n "$CRASH" ] && exit 1
 exit 0
